@@ -22,8 +22,17 @@ EXPLANATION = (
     "mapped to ValueError; value operators work on copies (P4). C side: the "
     "neutral-element branches of the ladders/scalar functions are present "
     "(callee-set reference), error discipline of the EC translation units, "
-    "exported operation sets match what the Python EcLib classes bind. Not "
-    "decided: the group law itself, complete formulas, scalar blinding, values.")
+    "exported operation sets match what the Python EcLib classes bind. The NIST "
+    "curve tables are self-consistent (prime of the standard's shape, generator "
+    "on the curve, prime order with order*G = infinity). src/ec_ws.c is "
+    "interpreted on the C evaluator for P-256/P-384/P-521/P-224 on every case "
+    "of the group law (doubling, distinct/equal/inverse points, infinity on "
+    "either side, projective operands, negation, comparison, clone/copy) and "
+    "compared with the affine law computed with Python ints; ec_ws_new_point "
+    "refuses off-curve points; blind_scalar_factor = k + R*order for scalars of "
+    "any length with every write in bounds. Not decided: the windowed ladders "
+    "as a whole, operands outside the case table, the Edwards/Montgomery "
+    "curve code.")
 
 PT = "Crypto.PublicKey._point"
 DH = "Crypto.Protocol.DH"
@@ -147,5 +156,9 @@ def run(check, ctx):
     # curve mismatch / wrong key kinds
     from . import c06_extra
     c06_extra.run(check, ctx)
-    check.undecided.append("the group law for any operand pair; ladder / complete formula correctness; "
-                           "scalar blinding; X25519/X448 values")
+    # curve tables and the native short-Weierstrass code, case by case of the group law
+    from . import c_ec, c_mont
+    c_ec.curve_conformance(check, repo)
+    c_ec.ec_tables(check, ctx)
+    check.undecided.append("the group law for operand pairs outside the case table; the windowed scalar-multiplication "
+                           "ladders as a whole (ec_scalar, generator tables); Ed25519/Ed448/X25519/X448 native code")
